@@ -249,9 +249,12 @@ func newNode(wc *worldCfg, level int, scratch string, setup []module.Transaction
 	return n, nil
 }
 
-func (n *node) newTransition(txs []module.Transaction) module.Transition {
+func (n *node) newTransition(txs []module.Transaction, x *execCtx) module.Transition {
 	n.height++
 	txl := transaction.NewTransactionListFromSlice(n.chain.database, txs)
+	if x != nil {
+		txl = &schedList{TransactionList: txl, x: x}
+	}
 	bi := common.NewBlockInfo(n.height, blockTimestamp(n.height))
 	csi := common.NewConsensusInfo(nil, nil, nil)
 	return service.NewTransition(n.parent, nil, txl, bi, csi, true)
@@ -260,7 +263,7 @@ func (n *node) newTransition(txs []module.Transaction) module.Transition {
 func blockTimestamp(h int64) int64 { return 1_700_000_000_000_000 + h*2_000_000 }
 
 func (n *node) commitBlock(txs []module.Transaction) error {
-	tr := n.newTransition(txs)
+	tr := n.newTransition(txs, nil)
 	if err := runPlain(tr); err != nil {
 		return err
 	}
